@@ -18,6 +18,18 @@ DOT = z3.Function('dot', AR, I, I, AR, I, R)
 BRSUM = z3.Function('brsum', AR, I, I, AAR, I, I, R)
 
 
+AB = z3.ArraySort(I, z3.BoolSort())
+COUNT_TRUE = z3.Function('count_true', AB, I, I)      # number of true entries among the first n
+
+
+def CT_BASE(A):
+    return COUNT_TRUE(A, 0) == 0
+
+
+def CT_STEP(A, n):
+    return z3.Implies(n >= 0, COUNT_TRUE(A, n + 1) == COUNT_TRUE(A, n) + z3.If(A[n], 1, 0))
+
+
 def SUMR_BASE(A):
     return SUMR(A, 0) == 0
 
@@ -70,7 +82,7 @@ def im_data(a):
     return d if type(d).__name__ == 'Unbound' else d.f['im']
 
 
-NS = {'SUMR': SUMR, 'DOT': DOT, 'BRSUM': BRSUM, 'SUMR_BASE': SUMR_BASE, 'SUMR_STEP': SUMR_STEP, 'DOT_BASE': DOT_BASE,
+NS = {'COUNT_TRUE': COUNT_TRUE, 'CT_BASE': CT_BASE, 'CT_STEP': CT_STEP, 'SUMR': SUMR, 'DOT': DOT, 'BRSUM': BRSUM, 'SUMR_BASE': SUMR_BASE, 'SUMR_STEP': SUMR_STEP, 'DOT_BASE': DOT_BASE,
       'DOT_STEP': DOT_STEP, 'DOT_EXT': DOT_EXT, 'BRSUM_BASE': BRSUM_BASE, 'BRSUM_STEP': BRSUM_STEP, 'data': data, 're_data': re_data,
       'im_data': im_data}
 
